@@ -14,7 +14,7 @@ SOUND = {"sound", "sound_env", "sound_mac", "errkind", "strict", "nonid", "ids_e
 ALL_FNS = [
     ER + "InternalError::into_custom", ER + "ProtocolError::into_custom", ER + "check_slice_size", ER + "check_slice_size_atleast",
     S + "Input::from", S + "Input::from_owned", S + "Input::from_label", S + "Input::iter", S + "Input::to_array_2", S + "Input::to_array_3",
-    "ksf::Identity::hash", G + "i2osp_2", G + "KeGroup::derive_auth_keypair",
+    "ksf::Identity::hash", "ksf::Argon2::hash", G + "i2osp_2", G + "KeGroup::derive_auth_keypair",
     K + "KeyPair::public", K + "KeyPair::private", K + "KeyPair::from_private_key", K + "KeyPair::from_private_key_slice", K + "KeyPair::generate_random",
     K + "PrivateKey::diffie_hellman", K + "PrivateKey::public_key", K + "PrivateKey::serialize", K + "PrivateKey::deserialize", K + "PublicKey::deserialize", K + "PublicKey::serialize",
     K + "PrivateKey::deserialize[serde]", K + "PrivateKey::serialize[serde]", K + "PublicKey::deserialize[serde]", K + "PublicKey::serialize[serde]",
@@ -178,6 +178,7 @@ PROPS["C09"] = {
         "clauses": star(ALL_FNS), "exclude": {"strict"},
         "theorems": ["lemma_i2osp1", "lemma_i2osp2", "lemma_preamble_flat", "thm_c03_expected_tag"],
         "kani": {"quick": [("leaf", "i2osp_u2_exact"), ("leaf", "i2osp_u1_exact")], "thorough": [("api", "x25519_derive_is_clamp")]},
+        "replay": ["c09"],
     }],
     "witness": "c01",
     "explanation": "Every output of every step (six messages, password file, export key, session key, server and client states as witnesses of the random choices) is proved equal to the RFC 9807 / RFC 9497 formula of verus/spec_rfc.rs applied to the inputs and to the tape segments consumed, in the order consumed; labels and constants are extracted from the source every run. Oracle transcription is cross-checked against the RFC vectors shipped in the repo by the replay crate (testing).",
@@ -211,12 +212,13 @@ PROPS["C15"] = {
     "alternatives": [{
         "name": "ksf-selection-binding",
         "clauses": [(O + "get_password_derived_key", "*"), (O + "ClientRegistration::finish", "ksf_err"), (O + "ClientLogin::finish", "ksf_err"), ("ksf::Identity::hash", "*")],
-         "supporting": [(O + "ClientRegistration::finish", "rfc"), (O + "ClientLogin::finish", "rp")],
+         # the Argon2 adapter's exact salt / error kind is RFC conformance (C09), not this property: supporting here
+         "supporting": [(O + "ClientRegistration::finish", "rfc"), (O + "ClientLogin::finish", "rp"), ("ksf::Argon2::hash", "*")],
          "theorems": ["thm_c15_default_equiv", "thm_c15_ksf_bound"],
     }],
     "witness": "c15",
     "explanation": "The hardened value is ksf_spec(params.ksf or the suite default, oprf_output), concatenated into Extract; both finish steps forward params.ksf; a KSF error is returned as Err(LibraryError(e)); Some(&default) == None; different stretching results give different randomized passwords. The contract pins the VALUE, so ksf(ksf(y)) or no call are caught; a redundant call whose result is discarded is unobservable.",
-    "assumptions": [A_PRELUDE, "Ksf::hash is a function of (self, input); Default::default() is deterministic (rule R8 shim)", "Argon2 adapter (feature-gated, calls into argon2) is not under contract: assumed Err => KsfError, output length = input length"],
+    "assumptions": [A_PRELUDE, "Ksf::hash is a function of (self, input); Default::default() is deterministic (rule R8 shim)", "Argon2 adapter: under contract against a shim of argon2::Argon2::hash_password_into (output = Argon2(params; OPRF output, 16 zero bytes of salt), error => KsfError); argon2 itself is assumed to be a function of (params, password, salt, length)"],
     "hypotheses": [IDEAL + "cf_extract (binding)"],
 }
 
